@@ -192,6 +192,32 @@ def bytesinteger_hints(eng, st, args):
             st.assume(t.forall([k], body, pats=[[t.select(d.arr, k)]]))
 
 
+def bit_digits(a, lo, n):
+    j = t.var('bd!', t.INT)
+    return forall_range(j, lo, t.add(lo, n), t.and_(t.le(t.ZERO, t.select(a, j)), t.le(t.select(a, j), t.ONE)), [[t.select(a, j)]])
+
+
+# n binary digits denote a number below 2^n
+Lemma('bits_bound', [('a', t.ARR), ('lo', t.INT), ('n', t.INT)],
+      lambda v: t.implies(t.and_(t.ge(v['n'], t.ZERO), bit_digits(v['a'], v['lo'], v['n'])),
+                          t.and_(t.le(t.ZERO, bits_val(v['a'], v['lo'], t.add(v['lo'], v['n']))), t.lt(bits_val(v['a'], v['lo'], t.add(v['lo'], v['n'])), P(v['n'])))),
+      induct=('n', 0), ih_instances=lambda v: [{'a': v['a'], 'lo': v['lo']}], tags=T + ('C02',),
+      defs=lambda v: [unfold_bits(v['a'], v['lo'], t.add(v['lo'], v['n'])), unfold_pow2(v['n']), unfold_pow2(t.ZERO)])
+
+
+# the first of n binary digits weighs 2^(n-1)
+def _bits_front(v):
+    a, lo, n = v['a'], v['lo'], v['n']
+    return t.implies(t.and_(t.ge(n, t.ONE), bit_digits(a, lo, n)),
+                     t.eq(bits_val(a, lo, t.add(lo, n)), t.add(t.ite(t.eq(t.select(a, lo), t.ONE), P(t.sub(n, t.ONE)), t.ZERO), bits_val(a, t.add(lo, t.ONE), t.add(lo, n)))))
+
+
+Lemma('bits_front', [('a', t.ARR), ('lo', t.INT), ('n', t.INT)], _bits_front, induct=('n', 1), ih_instances=lambda v: [{'a': v['a'], 'lo': v['lo']}], tags=T + ('C02',),
+      hints=lambda v: [inst('pow2_step', k=t.sub(v['n'], t.ONE))],
+      defs=lambda v: [unfold_bits(v['a'], v['lo'], t.add(v['lo'], v['n'])), unfold_bits(v['a'], t.add(v['lo'], t.ONE), t.add(v['lo'], v['n'])),
+                      unfold_bits(v['a'], v['lo'], t.add(v['lo'], t.ONE)), unfold_bits(v['a'], v['lo'], v['lo']), unfold_pow2(t.ZERO)])
+
+
 def bitsinteger_hints(eng, st, args):
     from .ghostreg import default_hints
     default_hints(eng, st, args)
@@ -212,9 +238,20 @@ def bitsinteger_hints(eng, st, args):
     st.assume(inst('shr_step', n=N, k=L))
     st.assume(inst('shr_nonneg', n=N, k=t.sub(L, t.ONE)))
     st.assume(inst('shr_ge', x=N, k=t.sub(L, t.ONE)))
+    d = eng.models.as_bytes(eng, data, st)
+    if d is not None:
+        st.assume(inst('bits_bound', a=d.arr, lo=d.off, n=L))
+        st.assume(inst('bits_front', a=d.arr, lo=d.off, n=L))
+        st.assume(inst('bits_bound', a=d.arr, lo=t.add(d.off, t.ONE), n=t.sub(L, t.ONE)))
+    st.assume(inst('bits_bound', a=w.arr, lo=w.off, n=L))
 
 
 def bitsinteger_domain(eng, st):
     """the round-trip lemma is stated for BitsInteger without byte swapping (the swapped form is not under this lemma)"""
     pint, ptruth = _param_terms(eng, st, st.env['self'])
     st.assume(t.not_(ptruth('swapped')))
+    if 'data0' in st.env:
+        # canonical form (C02): BitsInteger reads a stream of bits - inside Bitwise every byte of it is 0 or 1 (a hypothesis of the
+        # lemma, listed in the evidence: on raw bytes that are not bits BitsInteger.parse accepts digits build can never produce)
+        d0 = eng.models.as_bytes(eng, st.env['data0'], st)
+        st.assume(bit_digits(d0.arr, d0.off, d0.len))
